@@ -523,12 +523,13 @@ const HATCH_WIDE_PATTERN: [[u16; 16]; 6] = [
     ],
 ];
 
-const LINE_STYLE: [u16; 6] = [
+const LINE_STYLE: [u16; 7] = [
     // Solid
     0xFFFF, // Long Dash
     0xFFF0, // Dotted
     0xC0C0, // Dash Dot
     0xFF18, // Dashed
     0xFF00, // DASH Dot Dot
-    0xF191,
+    0xF191, // User defined (T 2,7,n) - solid, the user line patterns of 'X 7' are not implemented
+    0xFFFF,
 ];
